@@ -50,9 +50,12 @@ fn main() {
                 "C01" | "C05" | "C07" | "C08" | "C09" | "C13" => {
                     props::histprops::run(&id, tier, seed, replay.as_deref())
                 }
+                "C02" => props::c02::run(tier, seed, replay.as_deref()),
+                "C03" => props::c03::run(tier, seed, replay.as_deref()),
                 "C04" => props::c04::run(tier, seed, replay.as_deref()),
                 "C06" => props::c06::run(tier, seed, replay.as_deref()),
                 "C10" => props::c10::run(tier, seed, replay.as_deref()),
+                "C11" => props::c11::run(tier, seed, replay.as_deref()),
                 "C12" => props::c12::run(tier, seed, replay.as_deref()),
                 "C20" => props::c20::run(tier, seed, replay.as_deref()),
                 _ => {
